@@ -6,7 +6,11 @@ import (
 	"encoding/json"
 	"strings"
 	"testing"
+	"time"
 )
+
+// MinimiseBudget bounds the wall-clock time spent shrinking one violation.
+var MinimiseBudget = 20 * time.Second
 
 func cloneDesc(d *Desc) *Desc {
 	b, _ := json.Marshal(d)
@@ -65,7 +69,12 @@ func removeJob(d *Desc, s, j int) {
 func Minimise(t *testing.T, d *Desc, prop, class string, maxTrials int) (*Desc, *Result, int) {
 	key := classKey(class)
 	trials := 0
+	deadline := time.Now().Add(MinimiseBudget)
 	try := func(c *Desc) (*Result, bool) {
+		if time.Now().After(deadline) {
+			trials = maxTrials // wall-clock budget used up: stop shrinking, keep what we have
+			return nil, false
+		}
 		trials++
 		r := Exec(t, c, true, false, nil)
 		return r, Find(Check(r), prop, key) != nil
